@@ -24,7 +24,7 @@ RULE = ("seeded set-ups: grids [nr 6-9, ntheta 4-9 even and odd, nz 7-8, nv 6-9]
         "(3,1),(1,3),(3,2),(2,3), chi in {0,1}, adiabatic or kinetic electrons, distributions = equilibrium*(1+eps*mode) with "
         "poloidal mode numbers also above ntheta/2 (aliasing bookkeeping) from pygyro's own initialiser, or equilibrium + "
         "random perturbation (relative size 0.2, and 1e-9), or one strong poloidal mode with side bands nine orders of magnitude weaker; stages rho / modes / phi_hat / phi assembled over ranks and compared with the independent "
-        "pipeline; the same solver objects are then used for a second distribution (compared the same way) and for the first one again (judged against the reference again); FFT round trip on random complex grids; equilibrium (eps=0): rho, phi exactly zero and one full Strang "
+        "pipeline; the same solver objects are then used for a second distribution (compared the same way) and for the first one again (judged against the reference again); FFT round trip on random complex grids; equilibrium (eps=0): rho, phi zero (up to rounding of the quadrature) and one full Strang "
         "step is a fixed point.  A class is (ntheta parity, chi/electron model, which of r|z split, data kind, stage).")
 ASSUMPTIONS = ["simulated MPI through all layout changes of the pipeline (self-tested)", "reference per-mode solve = dense Galerkin assembly of C14 with the QN coefficient functions",
                "tolerance 1000*eps*cond(K)*kappa*scale per stage"]
@@ -242,8 +242,11 @@ def _equilibrium(case, spl, ps):
     shape3 = tuple(npts[:3])
     for name in ("rho", "phi"):
         G, cover = simrun.assemble([r[name] for r in w.results], shape3)
-        if float(np.abs(G).max()) != 0.0:
-            return result(VIOL, cls=[base], events=ev, key="C15:equilibrium-%s-not-zero" % name, what="%s of the unperturbed equilibrium is %.3g, expected exactly 0" % (name, float(np.abs(G).max())), witness=wit)
+        # "zero" up to rounding of the quadrature of f - f_eq (the shipped code gives exactly 0 because both sides use one table)
+        fmax_ = max(float(np.abs(r_["f0"][3]).max()) for r_ in w.results if r_["f0"][3].size)
+        tol0 = 1000 * rm.EPS * fmax_ * float(c.vMax - c.vMin) * (1.0 if name == "rho" else 1e4)
+        if not float(np.abs(G).max()) <= tol0:
+            return result(VIOL, cls=[base], events=ev, key="C15:equilibrium-%s-not-zero" % name, what="%s of the unperturbed equilibrium is %.3g (tolerance %.3g)" % (name, float(np.abs(G).max()), tol0), witness=wit)
     F0, _ = simrun.assemble([r["f0"] for r in w.results], tuple(npts))
     F1, _ = simrun.assemble([r["f1"] for r in w.results], tuple(npts))
     PH, _ = simrun.assemble([r["phi1"] for r in w.results], shape3)
